@@ -161,6 +161,16 @@ PROPS['C08'] = {
     'technique': 'contract-based deductive verification of the layout computation (PyVC on prophyc/model.py); bounded '
                  'stand-in: offsetof/sizeof of the generated raw header evaluated by g++ over a schema family',
 }
+PROPS['C18'] = {
+    'modules': ['contracts.c18_text'], 'static': ['vf.cxx_check:C18'], 'standins': ['cxx_codec'], 'cxx': True,
+    'trusted': PYVC_TRUST + CXX_TRUST + ['assumed contract of std::ostream: flags and fill sticky, width consumed by the next '
+                                         'insertion; std::hex changes the number base held in the flags'],
+    'assumptions': CXX_ENV + ['strings are opaque in the contracts: which pieces are produced, from which operands, in which '
+                              'order and under which stream state is proved; that the characters of a piece agree between '
+                              'Python repr()/str() and the C++ insertion operators is compared by the bounded stand-in only',
+                              'floating-point fields and bytes containing a single quote are outside the property'],
+    'level': 'other', 'technique': CXX_TECH,
+}
 PROPS['C19']['static'] = ['vf.cxx_check:C19']
 PROPS['C19']['standins'] = ['py_codec', 'cxx_codec']
 PROPS['C19']['cxx'] = True
@@ -186,6 +196,6 @@ NOT_APPLICABLE = {
            'no C/C++ deductive verifier is installed and the contract engines here (Python AST; clang AST with scalars only) '
            'cannot express "the buffer now equals the native encoding" (DESIGN.md section 10)',
 }
-for _p in ['C03', 'C05', 'C07', 'C08', 'C10', 'C11', 'C12', 'C13', 'C14', 'C15', 'C16', 'C17', 'C18', 'C20']:
+for _p in []:
     if _p not in PROPS:
         NOT_APPLICABLE[_p] = 'not claimed yet: contracts for this property are still being built (see DESIGN.md section 12); no check is registered'
